@@ -20,7 +20,7 @@ from .. import common as C
 
 PID = 'C18'
 PROPS_FILE = 'Props/C18.v'
-COQ_HEADER = 'From Coq Require Import QArith.\nFrom Scales Require Import Model.Base Model.Varz.'
+COQ_HEADER = 'From Coq Require Import QArith.\nFrom Scales Require Import Model.Base Model.Varz.\nLocal Open Scope Z_scope.'
 COQ_CASE_TYPE = 'Varz.case'
 COQ_CHECK = 'Varz.check_case'
 COQ_EXPLAIN = 'Varz.explain_case'
@@ -182,10 +182,10 @@ def gen_run(r, big=False, mixed=None):
       now += r.choice([0, 1, 5, 100, 299, 300, 301, 600, -3])
       ops.append(['K', now])
       continue
-    if k < 0.13:
+    if k < 0.10:
       ops.append(['D'])
       continue
-    if k < 0.22:
+    if k < 0.15:
       ops.append(['A', r.choice([0, 0, 0, 1, 2, 3, 4])])
       continue
     m, ty = r.choice(types)
@@ -935,9 +935,16 @@ def monitor(case, obs):
 # ---------------------------------------------------------------------------------------------
 # translation to Coq terms
 # ---------------------------------------------------------------------------------------------
+def z(n):
+  n = int(n)
+  return '(%d)' % n if n < 0 else '%d' % n
+
+
 def q(x):
   f = Fraction(x)
-  return '(Qmake (%d)%%Z %d%%positive)' % (f.numerator, f.denominator)
+  if f.denominator == 1:
+    return '(qi %s)' % z(f.numerator)
+  return '(qz %s %d)' % (z(f.numerator), f.denominator)
 
 
 def qlist(xs):
@@ -945,19 +952,19 @@ def qlist(xs):
 
 
 def oz(x):
-  return 'None' if x is None else '(Some (%d)%%Z)' % x
+  return '(-1)' if x is None else '%d' % x
 
 
 def src_lit(s):
-  return '(%s, %s, %s, %s)' % tuple(oz(x) for x in s)
+  return '(src %s %s %s %s)' % tuple(oz(x) for x in s)
 
 
 def key_lit(k):
-  return C.lst([oz(x) for x in k])
+  return '(kz %s)' % C.lst([oz(x) for x in k])
 
 
 def cfg_lit(cap, types, pcts):
-  return '(Build_config %s %s %s)' % (C.zlit(cap), C.lst(['(%s, %s)' % (C.zlit(m), C.zlit(ty)) for m, ty in types if ty is not None]),
+  return '(Build_config %s %s %s)' % (z(cap), C.lst(['(%s, %s)' % (z(m), z(ty)) for m, ty in types if ty is not None]),
                                       qlist(pcts))
 
 
@@ -965,12 +972,12 @@ def _cell_lit(c):
   if 'num' in c:
     return '(Num %s)' % q(c['num'])
   if 'res' in c:
-    return '(Res (Build_reservoir %s %s %s))' % (qlist(c['res']), C.zlit(c['i']), C.zlit(c['last']))
+    return '(Res (Build_reservoir %s %s %s))' % (qlist(c['res']), z(c['i']), z(c['last']))
   raise ValueError('cell outside the model: %r' % (c,))
 
 
 def _dump_lit(d):
-  return C.lst(['(%s, %s)' % (C.zlit(m), C.lst(['(%s, %s)' % (src_lit(s), _cell_lit(c)) for s, c in srcs])) for m, srcs in d])
+  return C.lst(['(%s, %s)' % (z(m), C.lst(['(%s, %s)' % (src_lit(s), _cell_lit(c)) for s, c in srcs])) for m, srcs in d])
 
 
 def _total_lit(t):
@@ -979,7 +986,7 @@ def _total_lit(t):
   if 'pcts' in t:
     return '(OPcts %s)' % qlist(t['pcts'])
   if 'work' in t:
-    return '(OWork %s)' % C.zlit(t['work'])
+    return '(OWork %s)' % z(t['work'])
   raise ValueError('total outside the model: %r' % (t,))
 
 
@@ -987,13 +994,13 @@ def _tail_obs_lit(o):
   if 'dump' in o:
     return '(ObDump %s)' % _dump_lit(o['dump'])
   if 'exc' in o:
-    return '(ObAggErr %s)' % C.zlit(EXC_CODE.get(o['exc'], 99))
-  return '(ObAgg %s)' % C.lst(['(%s, %s)' % (C.zlit(m), C.lst(['(%s, (%s, %s))' % (key_lit(k), _total_lit(t), C.zlit(c))
+    return '(ObAggErr %s)' % z(EXC_CODE.get(o['exc'], 99))
+  return '(ObAgg %s)' % C.lst(['(%s, %s)' % (z(m), C.lst(['(%s, (%s, %s))' % (key_lit(k), _total_lit(t), z(c))
                                                                  for k, t, c in per])) for m, per in o['agg']])
 
 
 def _tail_op_lit(op):
-  return 'OpDump' if op[0] == 'D' else '(OpAgg %s)' % C.zlit(op[1])
+  return 'OpDump' if op[0] == 'D' else '(OpAgg %s)' % z(op[1])
 
 
 def _rnd_lit(j, used):
@@ -1010,7 +1017,7 @@ def to_coq(case, obs):
     ops, exp = [], []
     for op, o in zip(case['ops'], obs['steps']):
       if op[0] == 'K':
-        ops.append('(OpL (Clock %s))' % C.zlit(op[1]))
+        ops.append('(OpL (Clock %s))' % z(op[1]))
         exp.append('(ObStep 0 0)')
       elif op[0] in ('D', 'A'):
         ops.append(_tail_op_lit(op))
@@ -1020,38 +1027,38 @@ def to_coq(case, obs):
           _t, kind, m, src, v, j = op
           rl = _rnd_lit(j, o['rnd'])
           if kind == 'inc':
-            lab = '(Inc %s %s %s)' % (C.zlit(m), src_lit(src), q(1 if v is None else v))
+            lab = '(Inc %s %s %s)' % (z(m), src_lit(src), q(1 if v is None else v))
           elif kind == 'set':
-            lab = '(SetV %s %s %s)' % (C.zlit(m), src_lit(src), q(v))
+            lab = '(SetV %s %s %s)' % (z(m), src_lit(src), q(v))
           else:
-            lab = '(Sample %s %s %s %s)' % (C.zlit(m), src_lit(src), q(v), rl)
+            lab = '(Sample %s %s %s %s)' % (z(m), src_lit(src), q(v), rl)
           ops.append('(OpL %s)' % lab)
         else:
           _t, ty, m, src, v, j, _b = op
-          ops.append('(OpCall %s %s %s %s %s)' % (C.zlit(ty), C.zlit(m), src_lit(src), q(1 if v is None else v),
+          ops.append('(OpCall %s %s %s %s %s)' % (z(ty), z(m), src_lit(src), q(1 if v is None else v),
                                                   _rnd_lit(j, o['rnd'])))
-        exp.append('(ObStep %s %s)' % (C.zlit(0 if o['o'] == 'ok' else EXC_CODE.get(o['o'], 99)), C.zlit(o['n'])))
+        exp.append('(ObStep %s %s)' % (z(0 if o['o'] == 'ok' else EXC_CODE.get(o['o'], 99)), z(o['n'])))
     return 'CRun %s %s %s' % (cfg_lit(case['cap'], case['types'], obs['pcts']), C.lst(ops), C.lst(exp))
   if k == 'e2e':
     calls = []
     for (method, reply), used in zip(case['ops'], obs['used']):
       if reply is None:
-        calls.append('(%s, None)' % C.zlit(method))
+        calls.append('(%s, None)' % z(method))
       else:
         ep, _as_obj, lat, is_err, j = reply
-        calls.append('(%s, Some (%s, %s, %s, %s))' % (C.zlit(method), oz(ep), q(lat), C.blit(is_err), _rnd_lit(j, used)))
-    return 'CE2E %s %s %s %s %s' % (cfg_lit(case['cap'], obs['types'], obs['pcts']), C.zlit(case['service']), C.lst(calls),
+        calls.append('(%s, Some (oz %s, %s, %s, %s))' % (z(method), oz(ep), q(lat), C.blit(is_err), _rnd_lit(j, used)))
+    return 'CE2E %s %s %s %s %s' % (cfg_lit(case['cap'], obs['types'], obs['pcts']), z(case['service']), C.lst(calls),
                                    C.lst([_tail_op_lit(op) for op in case['tail']]),
                                    C.lst([_tail_obs_lit(o) for o in obs['tail']]))
   if k == 'pct':
     return 'CPct %s %s %s' % (qlist(case['values']), qlist(case['ps']),
                               C.lst(['None' if x is None else '(Some %s)' % q(x) for x in obs['out']]))
   if k == 'down':
-    return 'CDown %s %s %s' % (qlist(case['lst']), C.zlit(case['target']), qlist(obs['out']))
+    return 'CDown %s %s %s' % (qlist(case['lst']), z(case['target']), qlist(obs['out']))
   if k == 'target':
     if obs['target'] is None:
       return None
-    return 'CTarget %s %s %s' % (C.zlit(case['n']), C.zlit(case['count']), C.zlit(obs['target']))
+    return 'CTarget %s %s %s' % (z(case['n']), z(case['count']), z(obs['target']))
   raise ValueError(k)
 
 
